@@ -277,6 +277,52 @@ def run(ctx):
                               'one list object given to expect() and then %s (%s mode): second call gave %r (a fresh list gives %r); the caller\'s list is %s' % (
                                   second, mode, got, want, 'unchanged' if same else 'rewritten to %r' % (lst,)), dict(mode=mode, second=second))
     ctx.cov['callers_list_cases'] = n4
+    # (5) the `delimiter` attribute is a pattern too: read(n) / read() / readline() stop at it, whichever accepted form it is given in;
+    # another object is rejected with TypeError
+    n5 = 0
+    for mode in 'bu':
+        for uenc in (['utf-8'] if mode == 'b' else ['utf-8', 'utf-16']):
+            UENC[0] = uenc
+            native = (lambda t: t) if mode == 'u' else (lambda t: t.encode('ascii'))
+            other = (lambda t: t.encode('ascii')) if mode == 'u' else (lambda t: t)
+            forms = {'native string': native('S+'), 'native compiled': re.compile(native('S+')), 'other-type compiled': re.compile(other('S+')), 'marker EOF': EOF}
+            if mode == 'b':
+                forms['text given to a bytes-mode object'] = 'S+'
+            for api in ('read4', 'readall', 'readline'):
+                ref = None
+                for name, form in forms.items():
+                    sp = scripted([['d', 'abcdefgSSShij\r\nklm'], ['E']], mode, X.FakeTime())
+                    sp.delimiter = form
+                    try:
+                        v = sp.read(4) if api == 'read4' else sp.read() if api == 'readall' else sp.readline()
+                        out = ('value', X.to_text(v, mode), X.to_text(sp.read(3), mode))
+                    except Exception as e:      # noqa
+                        out = ('raises', type(e).__name__)
+                    n5 += 1
+                    if name == 'marker EOF':
+                        continue
+                    if ref is None:
+                        ref = (name, out)
+                    elif out != ref[1]:
+                        common.report(ctx, 'forms/delimiter/%s/%s' % (mode, api), '%s with delimiter given as %s: %r; as %s: %r (%s mode)' % (
+                            api, name, out, ref[0], ref[1], mode), dict(api=api, mode=mode, form=name))
+                        break
+                for bad in (5, 3.5, object()):
+                    sp = scripted([['d', 'abcdefgSSShij'], ['E']], mode, X.FakeTime())
+                    sp.delimiter = bad
+                    try:
+                        sp.read(4) if api == 'read4' else sp.read() if api == 'readall' else sp.readline()
+                        out = 'accepted'
+                    except TypeError:
+                        out = 'TypeError'
+                    except Exception as e:      # noqa
+                        out = type(e).__name__
+                    n5 += 1
+                    if out != 'TypeError' or sp.delivered:
+                        common.report(ctx, 'forms/delimiter-invalid/%s/%s' % (mode, api), '%s with delimiter = %r on a %s-mode object: %s, %d reads consumed (expected TypeError before any '
+                                      'output is consumed)' % (api, bad, mode, out, len(sp.delivered)), dict(api=api, mode=mode, bad=repr(bad)))
+                        break
+    ctx.cov['delimiter_cases'] = n5
     ctx.cov['decision_cases'] = n1
     ctx.cov['metamorphic_cases'] = n2
     ctx.cov['invalid_object_cases'] = n3
